@@ -204,7 +204,8 @@ End Run.
    the FIRST element on which a plugin fails ends the whole call with one error response
    (package_error of that element) -- the other elements, good or not, are lost
    (K_child_error_drops_siblings).  At the end every element must be a JSON object
-   (json_array_flatten), else one invariant error naming the last offending element. *)
+   (json_array_flatten), else one invariant error naming the last offending element.
+   Before all that, a query that is not a JSON object is rejected with its own error response. *)
 Section InputPlugins.
   Context {query response : Type}.
   (* one InputPlugin::process on one element: the element(s) it became, or the packaged error *)
@@ -242,11 +243,15 @@ Section InputPlugins.
     | Some bad => inr (invariant_error bad)
     | None => inl l
     end.
-  Definition apply_input_plugins (stages : list plugin) (q : query) : list query + response :=
+  (* the plugin loop and the final flatten, for one element *)
+  Definition apply_core (stages : list plugin) (q : query) : list query + response :=
     match apply_stages stages [q] with
     | inr e => inr e
     | inl l => finish l
     end.
+  Variable not_object_error : query -> response.    (* package_error(query, "query is not a JSON object") *)
+  Definition apply_input_plugins (stages : list plugin) (q : query) : list query + response :=
+    if is_object q then apply_core stages q else inr (not_object_error q).
 End InputPlugins.
 
 (* ---- the specification when the first plugin expands a query (grid_search) and the later
@@ -262,31 +267,38 @@ Section Ideal.
   Variable single : query -> response.
   Variable fmt : response -> response.
 
+  Variable not_object_error : query -> response.
+
   Definition answer_child (c : query) : list response :=
-    match apply_input_plugins is_object invariant_error later c with
+    match apply_core is_object invariant_error later c with
     | inl cs => map (answer1 weight weight_error single fmt) cs
     | inr e => [fmt e]
     end.
   Definition answer_ideal (q : query) : list response :=
-    match grid q with
-    | inr e => [fmt e]
-    | inl kids => flat_map answer_child kids
-    end.
+    if is_object q then
+      match grid q with
+      | inr e => [fmt e]
+      | inl kids => flat_map answer_child kids
+      end
+    else [fmt (not_object_error q)].
   (* number of queries after expansion: every child the later plugins accept counts for what
      it became (one query, for plugins that do not expand), a rejected one counts once *)
   Definition expanded_ideal (q : query) : nat :=
-    match grid q with
-    | inr _ => 1
-    | inl kids => list_sum (map (fun c => match apply_input_plugins is_object invariant_error later c with
-                                          | inl cs => List.length cs
-                                          | inr _ => 1
-                                          end) kids)
-    end.
+    if is_object q then
+      match grid q with
+      | inr _ => 1
+      | inl kids => list_sum (map (fun c => match apply_core is_object invariant_error later c with
+                                            | inl cs => List.length cs
+                                            | inr _ => 1
+                                            end) kids)
+      end
+    else 1.
   (* the class of K_child_error_drops_siblings: the expansion has at least two children and one
      of them is rejected after the expansion (by a later plugin or by the final object check) *)
   Definition K (q : query) : Prop :=
-    exists kids, grid q = inl kids /\ 2 <= List.length kids
-                 /\ exists c e, In c kids /\ apply_input_plugins is_object invariant_error later c = inr e.
+    is_object q = true
+    /\ exists kids, grid q = inl kids /\ 2 <= List.length kids
+                    /\ exists c e, In c kids /\ apply_core is_object invariant_error later c = inr e.
 End Ideal.
 
 (* any interleaving of sequences (threads writing whole lines under the sink's mutex) *)
